@@ -330,11 +330,15 @@ def run_update_race(res: Result, seed: int) -> None:
     res.evaluations += 1
     T = "_http._tcp.local."
     old = Svc(T, "race." + T, "race-host.local.", 8080, b"\x03a=1", [b"\x0a\x00\x00\x05"], [], 120, 4500)
-    change = rng.choice(["txt", "port", "both"])
-    new = Svc(T, "race." + T, "race-host.local.", 8080 if change == "txt" else 9090, b"\x03a=1" if change == "port" else b"\x03a=2", [b"\x0a\x00\x00\x05"], [], 120, 4500)
+    change = rng.choice(["txt", "port", "both", "addr", "addr"])
+    if change == "addr":
+        # the host gets another address (and an IPv6 one: the NSEC record of the old state disappears as well)
+        new = Svc(T, "race." + T, "race-host.local.", 8080, b"\x03a=1", [b"\x0a\x00\x00\x06"], [b"\xfe\x80" + b"\0" * 13 + b"\x06"], 120, 4500)
+    else:
+        new = Svc(T, "race." + T, "race-host.local.", 8080 if change == "txt" else 9090, b"\x03a=1" if change == "port" else b"\x03a=2", [b"\x0a\x00\x00\x05"], [], 120, 4500)
     gap = rng.choice([300.0, 700.0, 1500.0, 3000.0])         # last announcement ... query (below 1000: protected queue)
     delta = rng.choice([1.0, 5.0, 15.0, 50.0, 100.0, 119.0, 200.0, 450.0, 900.0])     # query ... update
-    qkind = rng.choice(["ptr", "txt", "srv", "any", "multi"])
+    qkind = rng.choice(["ptr", "txt", "srv", "any", "multi", "a", "a"])
     api = rng.choice(["update", "update", "unregister"])
     desc = {"update_race": True, "change": change, "gap": gap, "delta": delta, "question": qkind, "api": api}
 
@@ -352,7 +356,7 @@ def run_update_race(res: Result, seed: int) -> None:
             await t
             await sim.sleep_ms(gap)
             qs = {"ptr": [(T, 12, False)], "txt": [(old.name, 16, False)], "srv": [(old.name, 33, False)], "any": [(old.name, 255, False)],
-                  "multi": [(T, 12, False), (old.name, 16, False)]}[qkind]
+                  "multi": [(T, 12, False), (old.name, 16, False)], "a": [(old.server, 1, False)]}[qkind]
             sim.net.inject_now(host, R.build_query(qs, id_=7), ("10.0.0.50", 5353))
             await sim.sleep_ms(delta)
             out["U"] = sim.now_ms()
@@ -371,7 +375,7 @@ def run_update_race(res: Result, seed: int) -> None:
             return
     res.mon("c03.wire")
     res.mon("c03.wire.update_race")
-    gone = {old.srv(), old.txt()} - ({new.srv(), new.txt()} if api == "update" else set())
+    gone = ({old.srv(), old.txt()} | old.addr_and_nsec()) - (({new.srv(), new.txt()} | new.addr_and_nsec()) if api == "update" else set())
     for e in sim.net.trace[out["mark"]:]:
         m = wire.parse(e["data"], strict=True)
         if not m.is_response:
